@@ -232,7 +232,7 @@ Example other_workspace_zero_builds_nonvacuous :
 Proof. vm_compute. reflexivity. Qed.
 
 (* the archive maps the live build-id of the root's sources to a wrong id: the download
-   under the derived id fails, the checkout reveals the truth, one restart, local result *)
+   under the derived id fails, the checkout reveals the truth, one restart, then the download succeeds *)
 Definition x_B_wrong : state :=
   {| ws := []; srcx := []; trc := []; arch := arch x_A; archl := ([51], [99]) :: archl x_A; wasrun := []; corun := [];
      tried := []; srcids := []; bdids := []; trace := [] |}.
@@ -241,6 +241,9 @@ Example wrong_prediction_restarts_and_converges_nonvacuous :
   match invoke_x c_yes x_app x_B_wrong with
   | Ok s => beqb (content_of x_app s) (x_local x_app) && N.eqb (count_ev is_restart (trace s)) 1
             && N.eqb (count_ev (fun e => match e with EDownload 1 false => true | _ => false end) (trace s)) 1
+            (* after the restart the download is tried again, with the right id: nothing is built *)
+            && N.eqb (count_ev (fun e => match e with EDownload 1 true => true | _ => false end) (trace s)) 1
+            && N.eqb (count_ev is_package_event (trace s)) 0
   | _ => false
   end = true.
 Proof. vm_compute. reflexivity. Qed.
